@@ -88,7 +88,7 @@ REG.contract('bounds.make_distinct', params={}, modifies=['lb', 'ub', 'fuel'],
 
 # ------------------------------------------------------------------------------------------------ is_complete
 REG.macro('ed_emshape', ['self'],
-          f'isnone({EM}) or (len({EM}) == {M} + 1 and forall(r, 0, {M} + 1, len({EM}[r]) == {N} + 1))')
+          f'isnone({EM}) or ({M} >= 0 and {N} >= 0 and len({EM}) == {M} + 1 and forall(r, 0, {M} + 1, len({EM}[r]) == {N} + 1))')
 REG.contract('EditDistance.is_complete', params={'self': 'ref[EditDistance]'}, returns='bool', pure=True,
              requires=['ed_emshape(self)'], ensures=['result == ed_complete(self)'])
 
